@@ -439,6 +439,68 @@ def check_static_initialiser(chk):
                    lambda a: {"bufp": B + 8, "buf_len": 24 if a[0] else 16, "readi": 0, "writei": 0})
 
 
+def check_run_time_initialiser(chk, cfg, mods):
+    """R6.init-complete: when ringbuf_init returns, on every path, bufp and buf_len are the caller's arguments and BOTH indices are
+    zero (a zero-filling memset over them, or a store / atomic store of 0 after it).  An index left as it was found makes the ring
+    start with whatever the memory held: bytes that were never put, or an index outside the buffer."""
+    for m in mods:
+        try:
+            fn = m.fn("ringbuf_init")
+        except Exception:
+            continue
+        if not fn.blocks:
+            continue
+        chk.note_fn(fn)
+        tid = m.di_by_name.get("ringbuf_t")
+        if not tid:
+            chk.unknown("R6.init-complete", "ringbuf_init [%s]" % cfg, "anchor vanished: ringbuf_t")
+            return
+        leaves = {path: (off, size) for path, off, size, ty in m.di_leaves(tid)}
+        want = {"bufp": ("arg", 1), "buf_len": ("arg", 2), "readi": ("c", 0), "writei": ("c", 0)}
+        n = 0
+        for p in paths.enumerate_paths(fn, m):
+            if paths.is_assert_fail_path(p):
+                continue
+            for name, w in want.items():
+                if name not in leaves:
+                    chk.unknown("R6.init-complete", "ringbuf_init [%s] .%s" % (cfg, name), "anchor vanished: ringbuf_t.%s" % name)
+                    continue
+                off, size = leaves[name]
+                last = None
+                for e in p.events:
+                    if e.ptr is None or e.kind not in ("store", "memset", "rmw", "cmpxchg", "memcpy"):
+                        continue
+                    root, o, var = ptr_parts(e.ptr)
+                    if root != ("arg", 0) or var:
+                        continue
+                    sz = e.size
+                    if sz is None or (o < off + size and off < o + sz):
+                        last = e
+                if last is None:
+                    got = None
+                elif last.kind == "memset" and last.size is not None and ptr_parts(last.ptr)[1] <= off and off + size <= ptr_parts(last.ptr)[1] + last.size \
+                        and strip_casts(last.val)[0] == "c":
+                    got = ("c", strip_casts(last.val)[2] & 0xff and -1)
+                elif last.kind == "store" and ptr_parts(last.ptr)[1] == off and last.size == size:
+                    v = strip_casts(last.val)
+                    got = ("c", v[2]) if v[0] == "c" else ("c", 0) if v == ("null",) else v
+                else:
+                    got = "?"
+                n += 1
+                ok = got == w
+                chk.ob("R6.init-complete", "ringbuf_init [%s] .%s" % (cfg, name), ok,
+                       "on return the member holds %s" % ("the caller's argument" if w[0] == "arg" else "0") if ok else
+                       "on return the member holds %s, not %s: %s" % (
+                           "what the memory held before (never written)" if got is None else fmt(got)[:40] if got != "?" else "a partially written value",
+                           "argument %d" % w[1] if w[0] == "arg" else "0",
+                           "the ring starts with an index that was never set - bytes that were never put are delivered, or the index is "
+                           "outside the buffer" if name in ("readi", "writei") else "the ring does not describe the caller's buffer"),
+                       (last.inst.loc if last is not None else fn.loc), fn.name)
+        chk.expect("R6", "members checked on ringbuf_init's paths [%s]" % cfg, n, 4)
+        return
+    chk.unknown("R6.init-complete", "ringbuf_init [%s]" % cfg, "anchor vanished: ringbuf_init")
+
+
 def check_user_contexts(chk, cfg, mods):
     """R7.one-consumer-context: the ring has ONE consumer.  Among the library's own users: a function that can run in interrupt
     context (reachable from the entry points the headers document as interrupt-callable, C06.ISR_ENTRY) must not take bytes out
@@ -509,3 +571,6 @@ def run(chk):
         check_user_contexts(chk, cfg, build.load_units(build.library_units(), cfg))
     chk.rule("R6", "RINGBUF_VAR_INIT uses each argument as one expression: bufp is the (converted) pointer argument, buf_len the length argument, both indices 0")
     check_static_initialiser(chk)
+    chk.rule("R6.init-complete", "ringbuf_init leaves bufp / buf_len equal to its arguments and both indices 0 on every path")
+    for cfg in ("default", "noatomics"):
+        check_run_time_initialiser(chk, cfg, build.load_units(["librfn/ringbuf.c"], cfg))
